@@ -71,7 +71,7 @@ let result_sx_of a (act : M.action) = function
   | M.RSingle rs -> L [A "write"; L (List.map opt_result_sx rs)]
   | M.RBulk rs ->
     let ops = (match act with M.ABulk (_, ops) -> ops | _ -> []) in
-    L [A "write"; L (List.map entry_sx (M.respond M.bres_ok (List.map action_of ops) rs))]
+    L [A "write"; L (List.map entry_sx (M.respond M.bres_ok (List.map action_of ops) (M.tag_seq rs)))]
   | M.RAtomic (M.AResults rs) ->
     let ops = (match act with M.AAtomic (_, ops) -> ops | _ -> []) in
     L [A "write"; L (ares_sx (List.map action_of ops) rs)]
